@@ -10,7 +10,7 @@ FUNCTIONS = [
     'emitted SQLite SQL text (GROUP BY, correlated scalar sub-queries, SUM/MIN/MAX/COUNT DISTINCT/JSON_GROUP_ARRAY/DistinctListAgg/ArgMin/ArgMax modelled in lv/sqlsem.py)',
 ]
 ASSUMPTIONS = [
-    'program shape from the seeded catalogue family "agg" (lv/gen.py): predicate-level aggregation with 0-2 keys and 1-2 aggregated arguments, multi-body aggregation, distinct, the three combine syntaxes correlated with 1-2 outer variables, two combines sharing a local variable name, nested combines, negation of atoms and conjunctions, =>, ArgMin/ArgMax, aggregated predicate read by a consumer',
+    'program shape from the seeded catalogue family "agg" (lv/gen.py): predicate-level aggregation with 0-2 keys and 1-2 aggregated arguments, multi-body aggregation, distinct, the three combine syntaxes correlated with 1-2 outer variables, two combines sharing a local variable name, nested combines, negation of atoms and conjunctions, =>, ArgMin/ArgMax, aggregated predicate read by a consumer; family "sugarbase": functional calls inside negations, combines and implications, multi-rule predicates, value aggregation',
     'database: <=K rows per table (K=2, K=3 when one atom feeds the aggregate), integers in [-2^20,2^20]; the aggregated column of W may be NULL in the "nullable" programs, join columns are never NULL',
     'ArgMin/ArgMax: values of one group pairwise distinct (ties are excepted by the property)',
     'Count of nothing is 0 (number of distinct non-null values), List order is not compared (multiset), a zero-key aggregating predicate has exactly one row',
@@ -19,7 +19,7 @@ ASSUMPTIONS = [
 
 
 def run():
-  return tvrun.run_tv('C02', {'agg': (96, 640, None)}, FUNCTIONS, ASSUMPTIONS, 'DESIGN.md §3 C02')
+  return tvrun.run_tv('C02', {'agg': (96, 640, None), 'sugarbase': (24, 160, None), 'kfc02': (2, 2, None)}, FUNCTIONS, ASSUMPTIONS, 'DESIGN.md §3 C02')
 
 
 def replay(path):
